@@ -13,6 +13,16 @@ import (
 	"github.com/bianjieai/tibc-go/modules/tibc/core/exported"
 )
 
+// requireActiveClient enforces the light-client contract "only Active clients
+// are allowed to process packets": proofs are not accepted through a client
+// whose newest trusted state is older than its trusting period.
+func (k Keeper) requireActiveClient(ctx sdk.Context, chainName string, clientState exported.ClientState) error {
+	if status := clientState.Status(ctx, k.clientKeeper.ClientStore(ctx, chainName), k.cdc); status != exported.Active {
+		return errorsmod.Wrapf(clienttypes.ErrClientNotActive, "client (%s) status is %s", chainName, status)
+	}
+	return nil
+}
+
 // SendPacket is called by a module to send an TIBC packet on a port owned
 // by the calling module to the corresponding module on the counterparty chain.
 func (k Keeper) SendPacket(ctx sdk.Context, packet exported.PacketI) error {
@@ -100,6 +110,9 @@ func (k Keeper) RecvPacket(
 	targetClient, found := k.clientKeeper.GetClientState(ctx, fromChain)
 	if !found {
 		return errorsmod.Wrap(clienttypes.ErrClientNotFound, fromChain)
+	}
+	if err := k.requireActiveClient(ctx, fromChain, targetClient); err != nil {
+		return err
 	}
 
 	commitment := types.CommitPacket(packet)
@@ -277,6 +290,9 @@ func (k Keeper) AcknowledgePacket(
 	if !found {
 		return errorsmod.Wrap(clienttypes.ErrClientNotFound, fromChain)
 	}
+	if err := k.requireActiveClient(ctx, fromChain, clientState); err != nil {
+		return err
+	}
 
 	ackCommitment := types.CommitAcknowledgement(acknowledgement)
 	if err := clientState.VerifyPacketAcknowledgement(ctx,
@@ -412,6 +428,9 @@ func (k Keeper) RecvCleanPacket(
 
 	if !found {
 		return errorsmod.Wrap(clienttypes.ErrClientNotFound, fromChain)
+	}
+	if err := k.requireActiveClient(ctx, fromChain, targetClient); err != nil {
+		return err
 	}
 
 	if err := targetClient.VerifyPacketCleanCommitment(ctx,
